@@ -1663,6 +1663,27 @@ def _compose_map(ck, g, tag, us_list, klass):
     return out, sw, imgs
 
 
+def sswu_inputs_with_denominator(g, tag, z0s):
+    """inputs u of the SSWU map whose Jacobian denominator -A'(Z^2 u^4 + Z u^2) equals a prescribed value z0
+    (solve the quadratic Z^2 t^2 + Z t + z0/A' = 0 in t = u^2, then take square roots); both signs of u"""
+    K = g.K
+    Z = K.from_int(O.SSWU_Z1) if tag == "g1" else O.SSWU_Z2
+    A_ = g.CP.a
+    sq = (lambda x: K.sqrt(x)) if K is F2 else (lambda x: O.fsqrt(x))
+    out = []
+    for z0 in z0s:
+        c_ = K.mul(z0, K.inv(A_))
+        sd = sq(K.sub(K.one, K.mul(K.from_int(4), c_)))
+        if sd is None:
+            continue
+        for sgn_ in (sd, K.neg(sd)):
+            t_ = K.mul(K.add(K.neg(K.one), sgn_), K.inv(K.mul(K.from_int(2), Z)))
+            u_ = sq(t_)
+            if u_ is not None:
+                out += [u_, K.neg(u_)]
+    return out
+
+
 def map_input_pairs(g, tag, us, rng):
     """(class, [u0, u1]) input pairs of map2_to_curve: random, equal, opposite, and DISTINCT inputs whose SSWU images are
     equal / opposite (u' = +-1/(Z u): where adding the two images needs the doubling / inverse case of the group law)"""
@@ -1703,21 +1724,8 @@ def check_C14(ck):
         else:
             us += [(rng.randrange(Q), 0), (0, rng.randrange(Q))]
         # inputs whose SSWU output has a special Jacobian Z = -A'(Z_sswu^2 u^4 + Z_sswu u^2): Z = 1, -1, 2, -2, 2^64 ...
-        # (a fast path of a later stage keyed on Z or Z^2 shows here); solve the quadratic in t = u^2
-        zden = []
-        A_ = g.CP.a
-        for z0 in (K.one, K.neg(K.one), K.from_int(2), K.neg(K.from_int(2)), K.from_int(1 << 64), K.from_int(4)) + ((((0, 1)), ((0, Q - 1))) if K is F2 else ()):
-            # Z_sswu^2 t^2 + Z_sswu t + z0/A' = 0
-            c_ = K.mul(z0, K.inv(A_))
-            disc = K.sub(K.one, K.mul(K.from_int(4), c_))
-            sd = K.sqrt(disc) if K is F2 else (O.fsqrt(disc))
-            if sd is None:
-                continue
-            for sgn_ in (sd, K.neg(sd)):
-                t_ = K.mul(K.add(K.neg(K.one), sgn_), K.inv(K.mul(K.from_int(2), Z)))
-                u_ = K.sqrt(t_) if K is F2 else O.fsqrt(t_)
-                if u_ is not None:
-                    zden += [u_, K.neg(u_)]
+        # (a fast path of a later stage keyed on Z or Z^2 shows here)
+        zden = sswu_inputs_with_denominator(g, tag, (K.one, K.neg(K.one), K.from_int(2), K.neg(K.from_int(2)), K.from_int(1 << 64), K.from_int(4)) + ((((0, 1)), ((0, Q - 1))) if K is F2 else ()))
         us += zden
         singles = [[u] for u in us]
         pairs = map_input_pairs(g, tag, us[:6], rng)
@@ -1897,6 +1905,16 @@ def check_C15(ck):
             special = sswu2_special_outputs(rng, 3 if not thorough else 10)
             us += [t for (_, t) in special]
             ck.classes["constructed:sswu-output-special-y"] = len(special)
+        # inputs whose Jacobian denominator -A'(Z^2 t^4 + Z t^2) is structured: +-1, 2, a single high limb, and for G2 a value in
+        # the base field, a purely imaginary value, a diagonal value (a fast path of the output conversion keyed on the
+        # denominator shows here; such t look entirely ordinary)
+        if tag == "g1":
+            z0s = [K.one, K.neg(K.one), K.from_int(2), K.from_int(1 << 64), K.from_int(3), K.from_int(Q - 2)] + [K.from_int(v) for v in ls[:4]]
+        else:
+            z0s = [K.one, K.neg(K.one), K.from_int(2), (0, 1), (0, Q - 1)] + [(k_, 0) for k_ in range(3, 24)] + [(0, k_) for k_ in range(2, 16)] + [(k_, k_) for k_ in range(1, 8)]
+        dsp = sswu_inputs_with_denominator(g, tag, z0s)
+        us += dsp if thorough else (dsp[:8] + dsp[8::max(1, len(dsp) // 16)])
+        ck.classes["constructed:sswu-denominator-structured"] = len(dsp)
         # fill every (which candidate is square) x (sign of t) class (the multiplier class is recorded from outputs)
         hist = {}
         need = 3 if not thorough else 25
